@@ -274,6 +274,14 @@ func runDijkstraShape(c *Ctx) []Obligation {
 				return true
 			})
 		}
+		// the method that stores a candidate distance: the one with the #decrease block
+		storeMethod := ""
+		for _, o := range out {
+			if i := strings.Index(o.Key, "#decrease"); i >= 0 {
+				k := o.Key[:i]
+				storeMethod = k[strings.LastIndex(k, ".")+1:]
+			}
+		}
 		// search loops: methods with `for s.Len() > 0 { r := heap.Pop(s) … }`
 		var relaxTexts []string
 		var relaxNames []string
@@ -298,11 +306,15 @@ func runDijkstraShape(c *Ctx) []Obligation {
 			// the inner relaxation loop
 			var inner *ast.ForStmt
 			visitedPos, innerPos := token.NoPos, token.NoPos
+			visitedField := ""
 			for _, st := range loop.Body.List {
 				if as, ok := st.(*ast.AssignStmt); ok && len(as.Lhs) == 1 {
-					if sel, ok := ast.Unparen(as.Lhs[0]).(*ast.SelectorExpr); ok && sel.Sel.Name == "visited" {
-						if tv := info.Types[as.Rhs[0]]; tv.Value != nil && tv.Value.ExactString() == "true" {
-							visitedPos = as.Pos()
+					if sel, ok := ast.Unparen(as.Lhs[0]).(*ast.SelectorExpr); ok {
+						if b, isB := info.TypeOf(sel).Underlying().(*types.Basic); isB && b.Kind() == types.Bool {
+							if tv := info.Types[as.Rhs[0]]; tv.Value != nil && tv.Value.ExactString() == "true" {
+								visitedPos = as.Pos()
+								visitedField = sel.Sel.Name
+							}
 						}
 					}
 				}
@@ -314,13 +326,53 @@ func runDijkstraShape(c *Ctx) []Obligation {
 				out = append(out, Obligation{Key: key(mname) + "#relax", Pos: c.Position(loop.Pos()), Status: Undecided, Detail: "search loop without a recognisable relaxation loop"})
 				continue
 			}
+			// the distance limit is a float64 parameter of the search method; usability and weight are a
+			// bool-returning and a float64-returning method called on an interface-typed parameter
+			mobj, _ := info.Defs[fd.Name].(*types.Func)
+			msig := mobj.Type().(*types.Signature)
+			isFloatParam := func(id *ast.Ident) bool {
+				for i := 0; i < msig.Params().Len(); i++ {
+					if info.Uses[id] == types.Object(msig.Params().At(i)) {
+						b, ok := msig.Params().At(i).Type().Underlying().(*types.Basic)
+						return ok && b.Kind() == types.Float64
+					}
+				}
+				return false
+			}
+			ifaceCall := func(n ast.Node, kind types.BasicKind) bool {
+				found := false
+				ast.Inspect(n, func(m ast.Node) bool {
+					call, ok := m.(*ast.CallExpr)
+					if !ok {
+						return true
+					}
+					sel, ok := ast.Unparen(call.Fun).(*ast.SelectorExpr)
+					if !ok {
+						return true
+					}
+					if _, isIface := info.TypeOf(sel.X).Underlying().(*types.Interface); !isIface {
+						return true
+					}
+					if b, ok := info.TypeOf(call).Underlying().(*types.Basic); ok && b.Kind() == kind {
+						found = true
+					}
+					return true
+				})
+				return found
+			}
 			var problems []string
 			if visitedPos == token.NoPos || visitedPos > innerPos {
 				problems = append(problems, "the popped entry is not marked visited before its edges are relaxed")
 			}
-			txt := srcText(c.Fset, inner.Body)
-			if !strings.Contains(txt, ".visited") {
-				problems = append(problems, "visited neighbours are not skipped")
+			skips := false
+			ast.Inspect(inner.Body, func(n ast.Node) bool {
+				if sel, ok := n.(*ast.SelectorExpr); ok && visitedField != "" && sel.Sel.Name == visitedField {
+					skips = true
+				}
+				return true
+			})
+			if !skips {
+				problems = append(problems, "settled neighbours are not skipped")
 			}
 			// candidate compared with the limit == candidate stored
 			var cmp, stored string
@@ -329,25 +381,25 @@ func runDijkstraShape(c *Ctx) []Obligation {
 				switch x := n.(type) {
 				case *ast.IfStmt:
 					if be, ok := ast.Unparen(x.Cond).(*ast.BinaryExpr); ok && (be.Op == token.LSS || be.Op == token.LEQ) {
-						if strings.Contains(strings.ToLower(srcText(c.Fset, be.Y)), "max") {
+						if id, ok := ast.Unparen(be.Y).(*ast.Ident); ok && isFloatParam(id) {
 							cmp = srcText(c.Fset, be.X)
 						}
 					}
-					if strings.Contains(srcText(c.Fset, x.Cond), "IsUseable") && strings.Contains(srcText(c.Fset, x.Body), ".Weight(") {
+					if ifaceCall(x.Cond, types.Bool) && ifaceCall(x.Body, types.Float64) {
 						isUseableGuardsWeight = true
 					}
 				case *ast.CallExpr:
-					if sel, ok := ast.Unparen(x.Fun).(*ast.SelectorExpr); ok && sel.Sel.Name == "AddOrUpdate" && len(x.Args) >= 2 {
+					if sel, ok := ast.Unparen(x.Fun).(*ast.SelectorExpr); ok && sel.Sel.Name == storeMethod && len(x.Args) >= 2 {
 						stored = srcText(c.Fset, x.Args[1])
 					}
 				}
 				return true
 			})
 			if cmp == "" || stored == "" || cmp != stored {
-				problems = append(problems, fmt.Sprintf("the candidate compared with the limit (%q) is not the distance handed to AddOrUpdate (%q)", cmp, stored))
+				problems = append(problems, fmt.Sprintf("the candidate compared with the limit (%q) is not the distance that is stored (%q)", cmp, stored))
 			}
 			if !isUseableGuardsWeight {
-				problems = append(problems, "Weight is not guarded by IsUseable")
+				problems = append(problems, "the segment is weighed without first asking the weights whether it is usable")
 			}
 			add(key(mname)+"#relax", loop.Pos(), len(problems) == 0,
 				fmt.Sprintf("%s settles the popped point, skips settled neighbours, weighs usable segments only, and stores the candidate %s it compared with the limit", mname, stored),
@@ -357,7 +409,7 @@ func runDijkstraShape(c *Ctx) []Obligation {
 			shape := shapeText(info, inner.Body)
 			ast.Inspect(inner.Body, func(n ast.Node) bool {
 				if call, ok := n.(*ast.CallExpr); ok && len(call.Args) > 2 {
-					if sel, ok := ast.Unparen(call.Fun).(*ast.SelectorExpr); ok && sel.Sel.Name == "AddOrUpdate" {
+					if sel, ok := ast.Unparen(call.Fun).(*ast.SelectorExpr); ok && sel.Sel.Name == storeMethod {
 						for _, a := range call.Args[2:] {
 							shape = strings.Replace(shape, shapeText(info, a), "(arg)", 1)
 						}
